@@ -1348,6 +1348,8 @@ class LazyIter:
     def symbolic(self):
         if self.kind == 'range':
             lo, hi = [to_z3(a) for a in self.args]
+            if z3.is_int_value(lo) and lo.as_long() == 0:
+                return z3.If(hi >= 0, hi, 0), (lambda k: Sym(k))
             n = z3.If(hi - lo >= 0, hi - lo, 0)
             return n, (lambda k, lo=lo: Sym(lo + k))
         if self.kind == 'enumerate':
